@@ -262,6 +262,62 @@ theorem reEt_eq (q : Quad) (imEt : ℝ → ℝ) (xi : ℝ) (h0 : 0 < xi) (h1 : x
       Real.log ((1 + xi) / (1 - xi)) * imEt xi) / Real.pi) := by
   simp only [reEt, reA, pyLogDiv_A xi h0 h1, kpi]
 
+/-- the quadrature rule is a linear functional of the integrand, for any nodes, weights and interval -/
+theorem pvquad_linear (q : Quad) (f g : ℝ → ℝ) (c d a b : ℝ) :
+    pvquad q (fun x => c * f x + d * g x) a b = c * pvquad q f a b + d * pvquad q g a b := by
+  have gen : ∀ (h : ℝ → ℝ) (l : Quad) (acc : ℝ),
+      l.foldl (fun acc rw => acc + rw.2 * h ((b - a) * (rw.1 + 1) / 2 + a)) acc =
+        acc + (l.map (fun rw => rw.2 * h ((b - a) * (rw.1 + 1) / 2 + a))).sum := by
+    intro h l
+    induction l with
+    | nil => intro acc; simp
+    | cons x xs ih => intro acc; simp only [List.foldl_cons, List.map_cons, List.sum_cons, ih]; ring
+  unfold pvquad
+  rw [gen f, gen g, gen (fun x => c * f x + d * g x)]
+  simp only [zero_add]
+  have hs : ∀ l : Quad,
+      (l.map (fun rw => rw.2 * (c * f ((b - a) * (rw.1 + 1) / 2 + a) + d * g ((b - a) * (rw.1 + 1) / 2 + a)))).sum =
+      c * (l.map (fun rw => rw.2 * f ((b - a) * (rw.1 + 1) / 2 + a))).sum +
+      d * (l.map (fun rw => rw.2 * g ((b - a) * (rw.1 + 1) / 2 + a))).sum := by
+    intro l
+    induction l with
+    | nil => simp
+    | cons x xs ih => simp only [List.map_cons, List.sum_cons, ih]; ring
+  rw [hs]; ring
+
+/-- the subtracted integrands are linear in the imaginary part -/
+theorem disparg_linear (F G : ℝ → ℝ) (c d xi x : ℝ) :
+    dispargV (fun y => c * F y + d * G y) xi x = c * dispargV F xi x + d * dispargV G xi x ∧
+    dispargA (fun y => c * F y + d * G y) xi x = c * dispargA F xi x + d * dispargA G xi x := by
+  simp only [dispargV, dispargA]
+  constructor <;> ring
+
+/-- **the dispersive real part is linear in the imaginary part** (fixed ξ; subtraction set aside): the real part of
+    c·F + d·G is c·Re F + d·Re G, for the vector and for the axial kernel — so valence and sea contributions, or the
+    flavour decomposition of an imaginary part, may be dispersed separately -/
+theorem reV_reA_linear (q : Quad) (F G : ℝ → ℝ) (c d xi : ℝ) (h0 : 0 < xi) (h1 : xi < 1) :
+    ∃ vF vG aF aG, reH q F 0 xi = .ok vF ∧ reH q G 0 xi = .ok vG ∧
+      reH q (fun y => c * F y + d * G y) 0 xi = .ok (c * vF + d * vG) ∧
+      reHt q F xi = .ok aF ∧ reHt q G xi = .ok aG ∧
+      reHt q (fun y => c * F y + d * G y) xi = .ok (c * aF + d * aG) := by
+  refine ⟨_, _, _, _, reH_eq q F 0 xi h0 h1, reH_eq q G 0 xi h0 h1, ?_, reHt_eq q F xi h0 h1,
+    reHt_eq q G xi h0 h1, ?_⟩
+  · rw [reH_eq q _ 0 xi h0 h1]
+    have : dispargV (fun y => c * F y + d * G y) xi = fun x => c * dispargV F xi x + d * dispargV G xi x := by
+      funext x; exact (disparg_linear F G c d xi x).1
+    rw [this, pvquad_linear]; congr 1; ring
+  · rw [reHt_eq q _ xi h0 h1]
+    have : dispargA (fun y => c * F y + d * G y) xi = fun x => c * dispargA F xi x + d * dispargA G xi x := by
+      funext x; exact (disparg_linear F G c d xi x).2
+    rw [this, pvquad_linear]; congr 1; ring
+
+/-- **the subtraction constant drops out of H + E**: Re H carries −C(t), Re E carries +C(t) -/
+theorem subtraction_cancels_in_H_plus_E (q : Quad) (F G : ℝ → ℝ) (C xi : ℝ) (h0 : 0 < xi) (h1 : xi < 1) :
+    ∃ vH vE vH0 vE0, reH q F C xi = .ok vH ∧ reE q G C xi = .ok vE ∧
+      reH q F 0 xi = .ok vH0 ∧ reE q G 0 xi = .ok vE0 ∧ vH + vE = vH0 + vE0 ∧ vH0 - vH = C ∧ vE - vE0 = C := by
+  refine ⟨_, _, _, _, reH_eq q F C xi h0 h1, reE_eq q G C xi h0 h1, reH_eq q F 0 xi h0 h1,
+    reE_eq q G 0 xi h0 h1, ?_, ?_, ?_⟩ <;> ring
+
 /-- the property for H, with the only non-exact ingredient isolated: for integrable subtracted
     integrand the principal value PV exists and
       ReH = PV/π − C + (quadrature sum − ∫₀¹ integrand)/π -/
